@@ -50,7 +50,7 @@ def _rbc_bmc(count, quick, thorough):
     runs = []
     for (n, k, sh, depth) in quick:
         runs.append(dict(name="bmc N=%d k=%d" % (n, k), dir="rbc", files=["rbc_bmc.go.txt"], entry="verifH_C02_bmc", params={"hN": n, "hK": k}, shards=sh, shard_depth=depth,
-                         count=count, expect_covers=["both-delivered", "equivocation-detected", "broadcast-delivered"] if k >= 3 else [],
+                         count=count, expect_covers=(["equivocation-detected"] + (["both-delivered", "broadcast-delivered"] if k >= n else [])) if k >= 3 else [],
                          bounds={"N": n, "events": k, "rounds": "all uint8", "digest byte": "all", "receivers": "2 honest + %d Byzantine" % (n - 2)}, only_tiers=["quick"]))
     # directed runs: the classic equivocation (two payloads of one round to both honest parties, either order) followed by k free events
     for (n, k, sh, depth, tiers) in ((3, 3, 16, 5, ["quick", "thorough"]), (3, 4, 16, 6, ["thorough"]), (4, 3, 16, 5, ["thorough"])):
@@ -59,7 +59,7 @@ def _rbc_bmc(count, quick, thorough):
                          bounds={"N": n, "prefix": "broadcaster 0 sends two different payloads of one round to both honest parties, per party in either order", "free events": k}, only_tiers=tiers))
     for (n, k, sh, depth) in thorough:
         runs.append(dict(name="bmc N=%d k=%d" % (n, k), dir="rbc", files=["rbc_bmc.go.txt"], entry="verifH_C02_bmc", params={"hN": n, "hK": k}, shards=sh, shard_depth=depth,
-                         count=count, expect_covers=["both-delivered", "equivocation-detected", "broadcast-delivered"] if k >= 3 else [],
+                         count=count, expect_covers=(["equivocation-detected"] + (["both-delivered", "broadcast-delivered"] if k >= n else [])) if k >= 3 else [],
                          bounds={"N": n, "events": k, "rounds": "all uint8", "digest byte": "all", "receivers": "2 honest + %d Byzantine" % (n - 2)}, only_tiers=["thorough"]))
     return runs
 
@@ -163,6 +163,8 @@ PROPS["C12"] = dict(
     runs=[
         dict(dir="threshold", files=["thr_c12.go.txt"], entry="verifH_C12_sign", args=_THR_CONC + ["-preempt", "0"], count=["assert:C12-", "panic:", "deadlock:"], expect_covers=["end"],
              shards=8, shard_depth=4, bounds={"calls": "Sign, then Sign on the same topic", "outcome of the first": "5 symbolic outcomes", "schedules": "all choices of the next goroutine at blocking points"}),
+        dict(dir="threshold", files=["thr_c12.go.txt"], entry="verifH_C12_keygen", args=_THR_CONC + ["-preempt", "0", "-det"], count=["assert:C12-", "assert:C11-", "panic:", "deadlock:"],
+             expect_covers=["end"], bounds={"calls": "KeyGen, then KeyGen", "outcome of the first": "ok / first barrier fails / second barrier fails / backend fails / duplicate party", "schedule": "canonical"}),
         dict(dir="threshold", files=["thr_c12.go.txt"], entry="verifH_C12_concurrent", args=_THR_CONC + ["-preempt", "0", "-det"], count=["assert:C12-", "panic:", "deadlock:"],
              expect_covers=["end", "second-refused", "second-independent"],
              bounds={"calls": "a Sign waiting at its first barrier; a second Sign on the same or another topic (symbolic); synchroniser traffic for the first; then the first completes; late traffic", "schedule": "canonical"}),
@@ -182,11 +184,11 @@ PROPS["C14"] = dict(
         dict(dir="msg", files=["msg_c14.go.txt"], entry="verifH_C14", args=["-realhex", "-acqonly", "-preempt", "2"], replay_args=["-instr", "msgbox.go"], shards=16, shard_depth=5,
              count=["assert:C14-", "panic:", "deadlock:"], expect_covers=["end", "received-during-first-send"], replay_repeat=3,
              bounds={"goroutines": "2 + main (+ the box's clock daemon, blocked forever)", "messages": 2, "preemptions": "<= 2", "switch points": "before every Lock/RLock and channel operation, at blocking and goroutine exit (releases are left-movers)"},
-             tiers={"thorough": {"args": ["-realhex", "-acqonly", "-preempt", "4"], "bounds": {"preemptions": "<= 4"}}}),
+             tiers={"thorough": {"args": ["-realhex", "-acqonly", "-preempt", "3"], "bounds": {"preemptions": "<= 3"}}}),
         dict(dir="msg", files=["msg_c14.go.txt"], entry="verifH_C14", args=["-realhex", "-acqonly", "-preempt", "1"], params={"hThird": 1}, replay_args=["-instr", "msgbox.go"], shards=16, shard_depth=5,
              count=["assert:C14-", "panic:", "deadlock:"], expect_covers=["end"], replay_repeat=3,
              bounds={"goroutines": "3 + main", "messages": 3, "third message": "other sender, same or other topic (symbolic)", "preemptions": "<= 1"},
-             tiers={"thorough": {"args": ["-realhex", "-acqonly", "-preempt", "3"], "bounds": {"preemptions": "<= 3"}}}),
+             tiers={"thorough": {"args": ["-realhex", "-acqonly", "-preempt", "2"], "bounds": {"preemptions": "<= 2"}}}),
     ],
 )
 PROPS["C15"] = dict(
@@ -518,3 +520,11 @@ PROPS["C16"]["runs"].append(
     dict(name="source of the channel binding (real extractTLSBinding over a stubbed TLS state)", dir="net", files=["net_c16.go.txt", "net_model.go.txt"], entry="verifH_C16_binding",
          args=["-realhex", "-redirect", _NET_RD_BIND, "-preempt", "0"], replay_args=_NET_REPLAY, count=["assert:C16-", "panic:"], expect_covers=["binding"],
          bounds={"exporter value": "32 symbolic bytes", "tls-unique": "absent or 2 symbolic bytes"}))
+
+PROPS["C10"]["runs"].append(
+    dict(name="msg.Box.HandleMessage (silent-mode buffer)", dir="msg", files=["msg_c15.go.txt"], entry="verifH_C10_box", args=["-realhex", "-preempt", "0", "-unwind", "128"], count=["panic:", "deadlock:"],
+         expect_covers=["returned"], bounds={"topic length": "{0,3,8,32}", "payload": "0..2 bytes", "type/source": "all", "state": "fresh / topic started / sender at the per-topic limit"}))
+PROPS["C04"]["runs"] += [
+    _bls("verifH_C04_classify", ["bls_c04.go.txt"], name="TBLS.ClassifyMsg: rounds and classes", count=["assert:C04-", "panic:"], covers=["classified", "rejected"], bounds={"payloads": "two, 2 symbolic bytes each"}),
+    _ps("verifH_C04_classify", ["ps_c04.go.txt"], name="TPS.ClassifyMsg: rounds and classes", count=["assert:C04-", "panic:"], covers=["classified", "rejected"], bounds={"payloads": "two, 2 symbolic bytes each"}),
+]
